@@ -15,6 +15,7 @@ package sftpfs
 
 import (
 	"os"
+	"syscall"
 	"time"
 
 	"github.com/pkg/sftp"
@@ -55,7 +56,7 @@ func (s Fs) MkdirAll(path string, perm os.FileMode) error {
 		if dir.IsDir() {
 			return nil
 		}
-		return err
+		return &os.PathError{Op: "mkdir", Path: path, Err: syscall.ENOTDIR}
 	}
 
 	// Slow path: make sure parent exists and then call Mkdir for path.
